@@ -60,7 +60,7 @@ type Span struct {
 }
 
 type RedMetrics struct {
-	Rate      float64 // Number of entry spans divided by 60 seconds
+	Rate      float64 // Number of entry spans per second
 	ErrorRate float64 // Percentage of entry spans that errored
 	P50       float64 // p50, p90, p95, p99 latencies are calculated by the list of durations.
 	P90       float64
